@@ -3,7 +3,6 @@ use std::{
     fmt,
     mem::{self, MaybeUninit},
     num::NonZeroUsize,
-    sync::Barrier,
 };
 
 use crate::{
@@ -20,7 +19,7 @@ use crate::{
     divan::SharedContext,
     stats::{RawSample, SampleCollection, Stats, StatsSet, TimeSample},
     time::{FineDuration, Timestamp, UntaggedTimestamp},
-    util::{self, sync::SyncWrap},
+    util::{self, sync::SyncWrap, thread::SampleBarrier},
 };
 
 #[cfg(divan_verif)]
@@ -713,11 +712,16 @@ impl<'a> BenchContext<'a> {
             let barrier = if is_single_thread {
                 None
             } else {
-                Some(Barrier::new(thread_count))
+                Some(SampleBarrier::new(thread_count))
             };
 
             // Sample loop helper:
             let record_sample = || -> RawSample {
+                // If this thread panics, release the threads that would
+                // otherwise wait for it forever.
+                let _break_on_panic =
+                    barrier.as_ref().map(SampleBarrier::break_on_panic);
+
                 let mut counter_totals: [u128; KnownCounterKind::COUNT] =
                     [0; KnownCounterKind::COUNT];
 
@@ -891,7 +895,7 @@ impl<'a> BenchContext<'a> {
         drop_input: impl Fn(&UnsafeCell<MaybeUninit<I>>),
     ) -> impl Fn(
         usize,
-        Option<&Barrier>,
+        Option<&SampleBarrier>,
         &mut dyn FnMut(&I),
     ) -> ([Timestamp; 2], ThreadAllocInfo) {
         // We defer:
@@ -904,7 +908,7 @@ impl<'a> BenchContext<'a> {
         let timer_kind = self.shared_context.timer.kind();
 
         move |sample_size: usize,
-              barrier: Option<&Barrier>,
+              barrier: Option<&SampleBarrier>,
               count_input: &mut dyn FnMut(&I)| {
             let mut defer_store = DeferStore::<I, O>::default();
 
@@ -930,7 +934,7 @@ impl<'a> BenchContext<'a> {
 
                 // Monomorphize implementation to reduce code size.
                 #[inline(never)]
-                fn sync_impl(barrier: Option<&Barrier>, is_start: bool) {
+                fn sync_impl(barrier: Option<&SampleBarrier>, is_start: bool) {
                     // Ensure benchmarked section has a `ThreadAllocInfo`
                     // allocated for the current thread and clear previous info.
                     let alloc_info = if is_start {
